@@ -46,6 +46,27 @@ CHECKS = {
              "monotone end-point reasoning rather than by a solver.",
         design_ref="3.4", technique="exact cell extraction of checker predicates from LLVM IR compared with closed-form sets",
         note=TRUST_I, engine="I"),
+    "C13": dict(
+        category="proof",
+        text="(S) AST shape rule on the primary templates au::Quantity / au::QuantityPoint - exactly one non-static data "
+             "member, no base, no virtual, no user-provided copy/move/destructor, no specialisation - from which size, "
+             "alignment, standard layout and triviality follow for EVERY U and R by the language rules; confirmed (W) by "
+             "static_asserts on all library units + generated compound units x 11 reps, incl. default construction.  "
+             "(I) unit(x).in(unit) and its spellings have the parameter itself as returned SSA value (identity on every "
+             "bit pattern); each same-unit operator's normalised DAG equals the DAG of the raw operator compiled next to "
+             "it (10 reps; long double at W level only) and (W) has the raw operator's result type and is accepted by "
+             "both compilers with narrowing treated alike.",
+        design_ref="3.13", technique="clang-query AST shape rule + static_assert witness programs + DAG equality of LLVM IR against raw-operator reference",
+        note=TRUST_W + "; " + TRUST_I, engine="S+W+I"),
+    "C19": dict(
+        category="proof",
+        text="(I) for 10 reps x sampled library and generated units, every comparison with ZERO (both orders) and q+-ZERO / "
+             "ZERO+-q has the same normalised IR DAG as the raw `x op R{0}`, so NaN, infinities and -0.0 behave exactly as the "
+             "raw operation; (W) Quantity(ZERO), copy-init, conversion to every arithmetic type and chrono durations, "
+             "ZERO op ZERO, min/max/clamp are constant-evaluated for all library units x 11 reps; compile-fail witnesses "
+             "show ZERO is rejected in every listed position where a quantity point is required.",
+        design_ref="3.19", technique="DAG equality of LLVM IR against raw reference + static_assert / compile-fail witness programs",
+        note=TRUST_W + "; " + TRUST_I, engine="W+I"),
 }
 
 NOT_YET = {
